@@ -62,6 +62,14 @@ def coq_obligations(pid, tier="quick"):
     with Lock("coq"):
         if not os.path.exists(os.path.join(COQ_DIR, "Makefile")):
             run_cmd(["coq_makefile", "-f", "_CoqProject", "-o", "Makefile"], cwd=COQ_DIR)
+        if pid == "C01":
+            # translator: regenerate the operator tables from the repository's current source
+            m = re.search(r'biodivine-lib-bdd\s*=\s*\{\s*path\s*=\s*"([^"]+)"', open(os.path.join(HARNESS_DIR, "Cargo.toml")).read())
+            rc, out, err = run_cmd([sys.executable, os.path.join(VERIF, "tools", "gen_tables.py"), m.group(1) if m else "/repo"], cwd=VERIF, timeout=120)
+            if rc != 0:
+                res["obligations"] += 1
+                res["failed"].append("translator tools/gen_tables.py could not translate the operator tables of the current source: " + (out + err)[-600:])
+                return res
         rc, out, err = run_cmd(["timeout", "1500", "make", "-j16", "Properties/%s.vo" % pid], cwd=COQ_DIR, timeout=1600)
         res["log"] = (out + err)[-4000:]
         if rc != 0:
